@@ -294,4 +294,194 @@ end
 
 end L0T
 
+/-! ## specialising to a fork = evaluating in that fork -/
+
+theorem lookup_pushForkFields (c : String) (ix : Idx) :
+    ∀ (kvs : List (String × RExp)) (k : String),
+      (pushForkFields c ix kvs).lookup k = (kvs.lookup k).map (pushFork c ix)
+  | [], _ => by simp [pushForkFields]
+  | (k', e) :: es, k => by
+    simp only [pushForkFields, List.lookup_cons]
+    cases hk : (k == k') <;> simp [lookup_pushForkFields c ix es k]
+
+theorem mem_pushForkFields (c : String) (ix : Idx) :
+    ∀ (kvs : List (String × RExp)) (k : String) (e' : RExp), (k, e') ∈ pushForkFields c ix kvs →
+      ∃ e, (k, e) ∈ kvs ∧ e' = pushFork c ix e
+  | [], _, _, h => by simp [pushForkFields] at h
+  | (k', e0) :: es, k, e', h => by
+    simp only [pushForkFields, List.mem_cons, Prod.mk.injEq] at h
+    cases h with
+    | inl h => exact ⟨e0, by simp [h.1], h.2⟩
+    | inr h =>
+      obtain ⟨e, he, hr⟩ := mem_pushForkFields c ix es k e' h
+      exact ⟨e, by simp [he], hr⟩
+
+theorem evalRTList_getD (st : StructTable) (F : Nat) (ρ : Store) (f : ForkAssign) (t : Ty) :
+    ∀ (xs : List RExp) (k : Nat),
+      (evalRTList st F ρ f t xs).getD k .null = evalRT st F ρ f t (xs.getD k (.lit .null))
+  | [], k => by simp [evalRTList, evalRT]
+  | x :: xs, 0 => by simp [evalRTList]
+  | x :: xs, k+1 => by simpa [evalRTList] using evalRTList_getD st F ρ f t xs k
+
+theorem HasTyRList_getD (st : StructTable) (t : Ty) :
+    ∀ (xs : List RExp) (k : Nat), HasTyRList st t xs → HasTyR st t (xs.getD k (.lit .null))
+  | [], k, _ => by simp [HasTyR, LitOk]
+  | x :: xs, 0, h => by simp only [HasTyRList] at h; simpa using h.1
+  | x :: xs, k+1, h => by
+    simp only [HasTyRList] at h
+    simpa using HasTyRList_getD st t xs k h.2
+
+section push
+variable (st : StructTable) (hst : StructsOk st) (F : Nat) (ρ : Store) (hρ : StoreExt ρ) (c : String) (k : Nat)
+include hst hρ
+
+mutual
+theorem pushFork_evalRT :
+    ∀ (e : RExp) (t : Ty) (f : ForkAssign), HasTyR st t e →
+      evalRT st F ρ f t (pushFork c (.i k) e) = evalRT st F ρ (fset f c (.i k)) t e ∧
+      HasTyR st t (pushFork c (.i k) e)
+  | .lit j, t, f, h => by simp only [pushFork, evalRT]; exact ⟨trivial, h⟩
+  | .arr xs, t, f, h => by
+    simp only [HasTyR] at h
+    have ih := pushFork_evalRTList xs _ f h.2
+    simp only [pushFork, evalRT, HasTyR, ih.1]
+    exact ⟨trivial, h.1, ih.2⟩
+  | .map kvs, t, f, h => by
+    simp only [HasTyR] at h
+    obtain ⟨ha, hm, hk⟩ := h
+    have ih := pushFork_evalRTFields kvs _ f hk
+    have c2 : (t.arrDim == 0 && t.mapDim != 0) = true := by simp [ha, hm]
+    simp only [pushFork, evalRT, c2, if_true, ih.1, HasTyR]
+    exact ⟨trivial, ha, hm, ih.2⟩
+  | .struct kvs, t, f, h => by
+    simp only [HasTyR] at h
+    obtain ⟨ha, hm, ps, hl, hmem, hall⟩ := h
+    have hn := hst _ _ hl
+    have c2 : (t.arrDim == 0 && t.mapDim != 0) = false := by simp [ha, hm]
+    constructor
+    · simp only [pushFork, evalRT, c2, Bool.false_eq_true, if_false, hl, J.obj.injEq]
+      apply List.map_congr_left
+      intro p hp
+      simp only [Prod.mk.injEq, true_and]
+      have hfind := find_name_of_nodup ps hn p hp
+      rw [lookup_evalRTMembers, lookup_evalRTMembers, lookup_pushForkFields, memberTy_find ps p.name p hfind]
+      cases he : kvs.lookup p.name with
+      | none => rfl
+      | some e =>
+        simp only [Option.map_some, Option.getD_some]
+        exact (pushFork_evalRTMembers ps kvs f hmem p.name e (mem_of_lookup kvs _ _ he) p hfind).1
+    · simp only [pushFork, HasTyR]
+      refine ⟨ha, hm, ps, hl, ?_, ?_⟩
+      · apply HasTyRMembers_of_mem
+        intro k' e' hke hsome
+        obtain ⟨e, he, hr⟩ := mem_pushForkFields c (.i k) kvs k' e' hke
+        subst hr
+        cases hf' : ps.find? (fun q => q.name == k') with
+        | none => simp [hf'] at hsome
+        | some p =>
+          rw [memberTy_find ps k' p hf']
+          exact (pushFork_evalRTMembers ps kvs f hmem k' e he p hf').2
+      · intro p hp
+        rw [lookup_pushForkFields]
+        have := hall p hp
+        cases he : kvs.lookup p.name with
+        | none => simp [he] at this
+        | some e => simp
+  | .ref n sty p, t, f, h => by
+    simp only [pushFork, evalRT, HasTyR]
+    exact ⟨trivial, h⟩
+  | .split c' false e, t, f, h => by
+    simp only [HasTyR] at h
+    have ih := pushFork_evalRT e _ f h
+    simp only [pushFork]
+    by_cases hc : (c' == c) = true
+    · have hcc : c' = c := by simpa using hc
+      subst hcc
+      simp only [hc, if_true]
+      cases hp : pushFork c' (.i k) e with
+      | arr xs =>
+        rw [hp] at ih
+        simp only [selectIx]
+        constructor
+        · simp only [evalRT, fset_lookup, Option.getD_some]
+          rw [← ih.1]
+          simp only [evalRT, Nat.add_sub_cancel, elemArr, elemAt]
+          exact (evalRTList_getD st F ρ f t xs k).symm
+        · have := ih.2
+          simp only [HasTyR, Nat.add_sub_cancel] at this
+          exact HasTyRList_getD st t xs k this.2
+      | map kvs =>
+        rw [hp] at ih
+        have := ih.2
+        simp [HasTyR] at this
+      | lit j => simp only [selectIx, evalRT, HasTyR]; exact ⟨trivial, h⟩
+      | struct kvs => simp only [selectIx, evalRT, HasTyR]; exact ⟨trivial, h⟩
+      | ref a b d => simp only [selectIx, evalRT, HasTyR]; exact ⟨trivial, h⟩
+      | split a b d => simp only [selectIx, evalRT, HasTyR]; exact ⟨trivial, h⟩
+      | merge a b d => simp only [selectIx, evalRT, HasTyR]; exact ⟨trivial, h⟩
+      | disabled a b => simp only [selectIx, evalRT, HasTyR]; exact ⟨trivial, h⟩
+      | fork a b d => simp only [selectIx, evalRT, HasTyR]; exact ⟨trivial, h⟩
+    · have hc' : (c' == c) = false := by simpa using hc
+      simp only [hc', Bool.false_eq_true, if_false, evalRT, HasTyR, ih.1, fset_lookup_ne f c c' (.i k) hc']
+      exact ⟨trivial, ih.2⟩
+  | .split _ true _, _, _, h => by simp [HasTyR] at h
+  | .merge _ _ _, _, _, h => by simp [HasTyR] at h
+  | .disabled _ _, _, _, h => by simp [HasTyR] at h
+  | .fork c' ix' e, t, f, h => by
+    simp only [HasTyR] at h
+    simp only [pushFork]
+    by_cases hc : (c' == c) = true
+    · have hcc : c' = c := by simpa using hc
+      subst hcc
+      simp only [hc, if_true, evalRT, fset_fset, HasTyR]
+      exact ⟨trivial, h⟩
+    · have hc' : (c' == c) = false := by simpa using hc
+      have ih := pushFork_evalRT e t (fset f c' ix') h
+      simp only [hc', Bool.false_eq_true, if_false, evalRT, HasTyR, ih.1]
+      refine ⟨?_, ih.2⟩
+      apply evalRT_congr st F ρ hρ
+      intro d
+      exact (fset_comm f c c' (.i k) ix' hc' d).symm
+theorem pushFork_evalRTList :
+    ∀ (es : List RExp) (t : Ty) (f : ForkAssign), HasTyRList st t es →
+      evalRTList st F ρ f t (pushForkList c (.i k) es) = evalRTList st F ρ (fset f c (.i k)) t es ∧
+      HasTyRList st t (pushForkList c (.i k) es)
+  | [], _, _, _ => by simp [pushForkList, evalRTList, HasTyRList]
+  | e :: es, t, f, h => by
+    simp only [HasTyRList] at h
+    have h1 := pushFork_evalRT e t f h.1
+    have h2 := pushFork_evalRTList es t f h.2
+    simp only [pushForkList, evalRTList, HasTyRList, h1.1, h2.1]
+    exact ⟨trivial, h1.2, h2.2⟩
+theorem pushFork_evalRTFields :
+    ∀ (kvs : List (String × RExp)) (t : Ty) (f : ForkAssign), HasTyRFields st t kvs →
+      evalRTFields st F ρ f t (pushForkFields c (.i k) kvs) = evalRTFields st F ρ (fset f c (.i k)) t kvs ∧
+      HasTyRFields st t (pushForkFields c (.i k) kvs)
+  | [], _, _, _ => by simp [pushForkFields, evalRTFields, HasTyRFields]
+  | (k', e) :: es, t, f, h => by
+    simp only [HasTyRFields] at h
+    have h1 := pushFork_evalRT e t f h.1
+    have h2 := pushFork_evalRTFields es t f h.2
+    simp only [pushForkFields, evalRTFields, HasTyRFields, h1.1, h2.1]
+    exact ⟨trivial, h1.2, h2.2⟩
+theorem pushFork_evalRTMembers (ps : List Param) :
+    ∀ (kvs : List (String × RExp)) (f : ForkAssign), HasTyRMembers st ps kvs →
+      ∀ (k' : String) (e : RExp), (k', e) ∈ kvs → ∀ (p : Param), ps.find? (fun q => q.name == k') = some p →
+        evalRT st F ρ f p.ty (pushFork c (.i k) e) = evalRT st F ρ (fset f c (.i k)) p.ty e ∧
+        HasTyR st p.ty (pushFork c (.i k) e)
+  | [], _, _, _, _, h, _, _ => by simp at h
+  | (k0, e0) :: es, f, hm, k', e, h, p, hf => by
+    simp only [HasTyRMembers] at hm
+    simp only [List.mem_cons, Prod.mk.injEq] at h
+    cases h with
+    | inl h =>
+      obtain ⟨rfl, rfl⟩ := h
+      have hty := hm.1 (by simp [hf])
+      rw [memberTy_find ps k' p hf] at hty
+      exact pushFork_evalRT e p.ty f hty
+    | inr h => exact pushFork_evalRTMembers ps es f hm.2 k' e h p hf
+end
+
+end push
+
 end Proofs.ResolverStatic
